@@ -11,7 +11,7 @@ FUNCTIONS = [
     "batchie.models.main.predict_viability_all / ModelEvaluation.save_h5 / load_h5",
 ]
 BOUNDS = {
-    "quick": "holders of 1, 2, 3, 10, 11, 12, 101 and 257 samples ('10' < '2' and '100' < '11' matter), every parameter a symbolic float64 of tiny shape (float32 casts visible); both sample types, empty and non-empty single-effect table; three parameters of one sample ranging over every float class (finite, NaN, +inf, -inf, -0.0); 2 chains of lengths (3,2), (1,11), (11,1), (2,11), (1,1) and 3 chains (2,1,2), (11,2,1) in every file order; a refused (empty) save onto an existing file",
+    "quick": "holders of 1, 2, 3, 10, 11, 12, 101 and 257 samples ('10' < '2' and '100' < '11' matter), every parameter a symbolic float64 of tiny shape (float32 casts visible); both sample types, empty and non-empty single-effect table; three parameters of one sample ranging over every float class (finite, NaN, +inf, -inf, -0.0); 2 chains of lengths (3,2), (1,11), (11,1), (2,11), (1,1) and 3 chains (2,1,2), (11,2,1) in every file order; a refused (empty) save onto an existing file; dtype of every reloaded parameter array; a fixture whose values all survive a float32 round trip",
     "thorough": "holders of every size 1..25 and of 101, 112, 256, 257, 300 and 1001 samples (three-digit keys: '100' < '11'), larger parameter shapes (3 samples x 3 treatments x 2 dimensions); every pair of chain lengths from {1,2,3,10,11,12}, every triple from {1,2,11}, 4, 5 and 6 chains; every file order",
 }
 ASSUMPTIONS = [
@@ -114,6 +114,20 @@ def _params_of(theta):
         if k == "single_effect_lookup":
             continue
         out[k] = v.tolist() if hasattr(v, "tolist") else v
+    return out
+
+
+def _flatten(d):
+    out = []
+    for k in sorted(d):
+        v = d[k]
+        stack = [v]
+        while stack:
+            x = stack.pop()
+            if isinstance(x, list):
+                stack.extend(reversed(x))
+            else:
+                out.append(x)
     return out
 
 
@@ -336,7 +350,7 @@ def h_guards(ctx, cfg):
         ctx.prove(True, "empty holder refuses to be saved")
     try:
         again = core.ThetaHolder.load_h5(fn)
-        kept = len(again.thetas) == 2 and all(bool(x.equals(y)) for x, y in zip(again.thetas, back.thetas))
+        kept = len(again.thetas) == 2 and all(ctx.is_true(all_same(ctx, _flatten(_params_of(x)), _flatten(_params_of(y)))) for x, y in zip(again.thetas, back.thetas))
     except (KeyError, OSError, ValueError):
         kept = False
     ctx.prove(kept, "a refused (empty) save leaves the collection already stored under that name loadable and unchanged",
